@@ -17,6 +17,8 @@ DENS = [1, 2, 4, 5, 8, 10, 16, 20, 25, 40, 50, 80, 100, 125, 200, 250, 400, 500]
 def gaf_line(r, k):
     cg = "".join(f"{n}{op}" for n, op in r["cg"])
     opt = ([f"tp:A:{r['tp']}"] if r["tp"] else []) + ["NM:i:1"] + ([f"cg:Z:{cg}"] if cg else [])     # the cg tag is optional
+    if k % 3 == 1:      # aligner-specific tags that restate (here: contradict) the mandatory columns must not be used for the figures
+        opt += ["id:f:0.123", "dv:f:0.9", "AS:i:-7", "ql:i:5"]
     return "\t".join([r["name"], str(r["qlen"]), str(r["qs"]), str(r["qe"]), "+-"[k % 2], ">s1>s2", "1000", "0", str(r["bl"]),
                       str(r["m"]), str(r["bl"]), str(r["mq"])] + opt)
 
